@@ -949,6 +949,11 @@ class Verifier:
             es = z3.SeqSort(sort_of(t))
             parts = [z3.If(c, z3.Unit(pack(o, t)), z3.Empty(es)) for c, o in zip(conds, out)]
             return SV(SeqT(t), parts[0] if len(parts) == 1 else z3.Concat(*parts))
+        if isinstance(it, SV) and self.is_live(it):
+            # iterating a live object runs its __iter__/__next__: effect obligation; the elements are live objects
+            self.live_effect(st, 'user:iter', it, node)
+            f = self.uf('Live.items', [Ref], z3.SeqSort(Ref))
+            it = SV(SeqT(ObjT('Live')), f(strip_opt(it).z))
         # symbolic sequence: filter/map as an axiomatised fresh sequence
         if isinstance(it, SV) and isinstance(it.t, SeqT):
             return self.symbolic_comprehension(node, g, it, st)
@@ -1083,6 +1088,16 @@ class Verifier:
             return
         if isinstance(tgt, ast.Attribute):
             obj = self.ev(tgt.value, st)
+            if not mutation:
+                # the field is REBOUND to another object: a local that aliases the old container keeps the old one
+                o2 = strip_opt(obj) if isinstance(obj, SV) else obj
+                for nm, cur in list(st.env.items()):
+                    if isinstance(cur, MAlias) and cur.attr == tgt.attr and isinstance(o2, SV) \
+                            and isinstance(cur.obj, SV) and cur.obj.t == o2.t:
+                        if z3.eq(cur.obj.z, o2.z):
+                            st.env[nm] = self.get_attr(st, cur.obj, cur.attr, node)
+                        else:
+                            raise Unsupported('field .%s is rebound while local %s may alias it' % (tgt.attr, nm))
             self.set_attr(st, obj, tgt.attr, val, node)
             return
         if isinstance(tgt, ast.Subscript):
